@@ -5,6 +5,7 @@ import (
 	"strconv"
 	"luahelper-lsp/langserver/check/common"
 	"luahelper-lsp/langserver/check/compiler/lexer"
+	"luahelper-lsp/langserver/check/results"
 )
 
 // C05-b: go-to-definition on every identifier occurrence of every template instance equals the
@@ -110,6 +111,56 @@ func VerifRun_C05b() {
 		c05check(p, r, files, srcs, oi)
 	}
 	verifReach("done")
+}
+
+// VpC05Query is one go-to-definition question of the reference binder, in protocol coordinates (for the
+// handler-level job of package langserver).
+type VpC05Query struct {
+	Name      string
+	Line, Col int      // cursor (0-based line, byte column)
+	Kind      int      // 0 bound to a local declaration, 1 global with defining assignments, 2 unbound
+	Want      [][4]int // accepted answers: start line (0-based), start column, end line, end column
+	Class     string
+}
+
+// VpC05Queries lists, for a single analysed file, both cursor ends of every identifier occurrence with
+// the declaration Lua's scoping binds it to.
+func VpC05Queries(f *results.FileStruct, src []byte) []VpC05Query {
+	r := rbBind([]*results.FileStruct{f})
+	var out []VpC05Query
+	for oi := range r.occs {
+		o := &r.occs[oi]
+		if vpSkipName(o.name) || o.loc.StartLine == 0 {
+			continue
+		}
+		conv := func(l lexer.Location) [4]int {
+			return [4]int{l.StartLine - 1, l.StartColumn, l.EndLine - 1, l.EndColumn}
+		}
+		ls := vpLineStarts(src)
+		for _, col := range []int{o.loc.StartColumn, o.loc.EndColumn} {
+			off := ls[o.loc.StartLine-1] + col
+			if off > len(src) {
+				continue
+			}
+			q := VpC05Query{Name: o.name, Line: o.loc.StartLine - 1, Col: col, Class: c05class(r, o)}
+			if q.Class == "" && col == o.loc.StartColumn && off >= 1+len(o.name) && src[off-1] == '=' && string(src[off-1-len(o.name):off-1]) == o.name {
+				q.Class = "C05-unspaced-field-value"
+			}
+			if o.decl >= 0 {
+				q.Kind = 0
+				q.Want = [][4]int{conv(r.decls[o.decl].loc)}
+			} else if defs := r.globalDefs(o.name); len(defs) > 0 {
+				q.Kind = 1
+				for _, di := range defs {
+					q.Want = append(q.Want, conv(r.occs[di].loc))
+				}
+			} else {
+				q.Kind = 2
+			}
+			out = append(out, q)
+		}
+	}
+	return out
 }
 
 var _ = lexer.Location{}
